@@ -69,6 +69,8 @@ type Ev struct {
 type Case struct {
 	Sess []SessSpec `json:"sess"`
 	Evs  []Ev       `json:"evs"`
+	// Quiet: URR ids whose removal the kernel acknowledges without a final report
+	Quiet []uint32 `json:"quiet,omitempty"`
 }
 
 var periodsSec = []uint32{3600, 7200}
@@ -183,6 +185,7 @@ func match(carrier string, g stack.UsageDetail, w want) *vcore.Violation {
 }
 
 type msess struct {
+	gone   map[uint32]URRSpec // URRs removed earlier (may be provisioned again)
 	spec   SessSpec
 	ref    int
 	alive  bool
@@ -227,11 +230,16 @@ func run(c Case) (v *vcore.Violation, stt stats) {
 	// current kernel values
 	var cur Vals
 	f.D.K.UsageFor = func(op string, k simkernel.RuleKey) simkernel.Usage { return cur.usage(0, uint32(k.ID)) }
+	quiet := map[uint32]bool{}
+	for _, q := range c.Quiet {
+		quiet[q] = true
+	}
+	f.D.K.QuietDel = func(k simkernel.RuleKey) bool { return quiet[uint32(k.ID)] }
 	var ms []*msess
 	for _, sp := range c.Sess {
 		var rules []stack.RuleOp
 		var refs []uint32
-		m := &msess{spec: sp, alive: true, urrs: map[uint32]URRSpec{}, pdrHas: map[uint32]bool{}, pdr: true}
+		m := &msess{spec: sp, alive: true, urrs: map[uint32]URRSpec{}, pdrHas: map[uint32]bool{}, pdr: true, gone: map[uint32]URRSpec{}}
 		for _, u := range sp.URRs {
 			ru := stack.RuleOp{Verb: "create", Kind: "URR", ID: u.ID, Method: u.Method, MNOP: u.MNOP, Trig: 0x02}
 			if u.Perio > 0 {
@@ -308,6 +316,13 @@ func run(c Case) (v *vcore.Violation, stt stats) {
 			allowEmpty := map[int]bool{}
 			seen := map[int]bool{}
 			for _, rp := range ev.Reps {
+				if rp.Sess >= 0 && rp.Sess < len(ms) && ms[rp.Sess].alive && quiet[rp.URR] {
+					if _, gone := ms[rp.Sess].gone[rp.URR]; gone {
+						// a kernel does not report for a URR it has removed; go-upf learns of a removal only through the
+						// final report, which this URR's removal did not produce
+						continue
+					}
+				}
 				seid := 0x7700000000 + uint64(rp.URR)
 				if rp.Sess >= 0 && rp.Sess < len(ms) {
 					seid = r.Sess[ms[rp.Sess].ref].UP
@@ -350,6 +365,9 @@ func run(c Case) (v *vcore.Violation, stt stats) {
 			}
 			if len(seen) >= 2 {
 				stt.multiSess = true
+			}
+			if len(mr) == 0 {
+				continue
 			}
 			if err := f.D.K.SendReports(mr); err != nil {
 				panic("infrastructure: " + err.Error())
@@ -406,7 +424,7 @@ func run(c Case) (v *vcore.Violation, stt stats) {
 			if x := checkSRRs(what, o, exp, nil); x != nil {
 				return x, stt
 			}
-		case "query", "remove", "update", "rmpdr", "del":
+		case "query", "remove", "update", "rmpdr", "del", "create":
 			if ev.Sess >= len(ms) || !ms[ev.Sess].alive {
 				continue
 			}
@@ -431,8 +449,26 @@ func run(c Case) (v *vcore.Violation, stt stats) {
 					seen[id] = true
 					rules = append(rules, stack.RuleOp{Verb: "remove", Kind: "URR", ID: id})
 					if u, ok := m.urrs[id]; ok {
-						ws = append(ws, want{urr: id, trig: stack.TrigTERMR, vals: ev.Vals, method: u.Method, mnop: u.MNOP})
+						if !quiet[id] {
+							ws = append(ws, want{urr: id, trig: stack.TrigTERMR, vals: ev.Vals, method: u.Method, mnop: u.MNOP})
+						}
 						delete(m.urrs, id)
+						delete(m.pdrHas, id)
+						m.gone[id] = u
+					}
+				}
+			case "create":
+				// provision a URR again that was removed earlier (same parameters, no PDR refers to it)
+				for _, id := range ev.URRs {
+					if u, was := m.gone[id]; was {
+						if _, ok := m.urrs[id]; ok {
+							continue
+						}
+						u.Perio = 0
+						ru := stack.RuleOp{Verb: "create", Kind: "URR", ID: id, Method: u.Method, MNOP: u.MNOP, Trig: 0x02}
+						rules = append(rules, ru)
+						m.urrs[id] = u
+						delete(m.gone, id)
 					}
 				}
 			case "update":
@@ -475,7 +511,9 @@ func run(c Case) (v *vcore.Violation, stt stats) {
 			case "del":
 				op = stack.Op{Kind: "del", Peer: m.spec.Node, Sess: m.ref}
 				for _, u := range m.urrs {
-					ws = append(ws, want{urr: u.ID, trig: stack.TrigTERMR, vals: ev.Vals, method: u.Method, mnop: u.MNOP})
+					if !quiet[u.ID] {
+						ws = append(ws, want{urr: u.ID, trig: stack.TrigTERMR, vals: ev.Vals, method: u.Method, mnop: u.MNOP})
+					}
 				}
 				m.alive = false
 			}
@@ -550,9 +588,32 @@ func gen(t *rapid.T) Case {
 		}
 		c.Sess = append(c.Sess, sp)
 	}
+	for id := uint32(1); id <= 3; id++ {
+		if rapid.IntRange(0, 3).Draw(t, "quiet") == 0 {
+			c.Quiet = append(c.Quiet, id)
+		}
+	}
+	// scripted core (1 in 4): a URR is removed without a final report, provisioned again, and must report as before
+	if rapid.IntRange(0, 3).Draw(t, "core") == 0 {
+		has := false
+		for _, q := range c.Quiet {
+			if q == 1 {
+				has = true
+			}
+		}
+		if !has {
+			c.Quiet = append(c.Quiet, 1)
+		}
+		c.Evs = append(c.Evs,
+			Ev{Kind: "remove", Sess: 0, URRs: []uint32{1}, Vals: genVals(t)},
+			Ev{Kind: "create", Sess: 0, URRs: []uint32{1}, Vals: genVals(t)},
+			Ev{Kind: "query", Sess: 0, URRs: []uint32{1}, Vals: genVals(t)},
+			Ev{Kind: "mcast", Sess: 0, Reps: []Rep{{Sess: 0, URR: 1, Cause: 1, Vals: genVals(t)}}, Vals: genVals(t)},
+			Ev{Kind: "query", Sess: 0, URRs: []uint32{1}, Vals: genVals(t)})
+	}
 	n := rapid.IntRange(1, 12).Draw(t, "nev")
 	for i := 0; i < n; i++ {
-		k := rapid.SampledFrom([]string{"mcast", "mcast", "mcast", "mcast", "query", "query", "remove", "update", "rmpdr", "del", "tick", "tick"}).Draw(t, "kind")
+		k := rapid.SampledFrom([]string{"mcast", "mcast", "mcast", "mcast", "query", "query", "remove", "remove", "create", "create", "update", "rmpdr", "del", "tick", "tick"}).Draw(t, "kind")
 		ev := Ev{Kind: k, Sess: rapid.IntRange(0, ns-1).Draw(t, "sess"), Vals: genVals(t)}
 		switch k {
 		case "mcast":
@@ -561,7 +622,7 @@ func gen(t *rapid.T) Case {
 				rp := Rep{Sess: rapid.IntRange(-1, ns-1).Draw(t, "rsess"), URR: uint32(rapid.IntRange(1, 4).Draw(t, "urr")), Cause: rapid.IntRange(0, 17).Draw(t, "cause"), Vals: genVals(t)}
 				ev.Reps = append(ev.Reps, rp)
 			}
-		case "query", "remove", "update":
+		case "query", "remove", "update", "create":
 			nq := rapid.IntRange(1, 3).Draw(t, "nq")
 			seen := map[uint32]bool{}
 			for j := 0; j < nq; j++ {
@@ -624,7 +685,7 @@ func report(t vcore.Failer, c Case, v *vcore.Violation) {
 	}
 	key := v.Key
 	c.Evs = vcore.MinimizeSlice(c.Evs, func(evs []Ev) bool {
-		x, _ := run(Case{Sess: c.Sess, Evs: evs})
+		x, _ := run(Case{Sess: c.Sess, Evs: evs, Quiet: c.Quiet})
 		return x != nil && x.Key == key
 	}, 100)
 	if x, _ := run(c); x != nil {
